@@ -2,6 +2,7 @@ import Pcore.Proofs.FormatUnparse
 import Pcore.Proofs.FormatContainer
 import Pcore.Proofs.FormatRef
 import Pcore.Proofs.FormatCtor
+import Pcore.Proofs.FormatAlt
 import Pcore.Generated.FormatLetters
 /-!
 # C20 — String formatting is total and faithful to the format directive
@@ -54,11 +55,14 @@ Full statement / proved / missing
                          integer code (between sign/prefix and digits, by `C20_int_ref_partial`) and the b/B precision.
 * `C20_container_rec`  — for values of any depth: the model of ToString2 = the directly written recursive reference
                          renderer `refVal`, under any per-type map with non-alt container formats (hash format ≠ a).
+* `C20_container_alt`  — alt-mode (`#`) and mixed layouts too: the model of ToString2 with its Indentation objects = the
+                         directly written pretty-printer `refPP` (level / inherited-indent / nested as parameters, line
+                         breaks decided from the previous element), values of any depth; `C20_alt_line_break`.
 * `C20_container_array`, `C20_container_hash` — non-alt: left delimiter ++ intercalate (separator ++ " ") (element
                          renderings) ++ right delimiter; elements that are containers fall under the same theorems.
 * missing: the digits of `%e %f %g %a` (fmt/strconv float formatting is a parameter `FloatIO`; only the dispatch,
   the format string handed over, floatGFormat's fraction restoration and padNumber are modelled and compared);
-  alt-mode (`#`) container layout is modelled and compared line by line but has no theorem; strings.ToUpper/ToLower
+  strings.ToUpper/ToLower
   beyond U+00FF; NaN/±Inf (not instances of Float in pcore: no Float format entry applies to them).
 -/
 namespace Pcore.Format
@@ -487,6 +491,28 @@ theorem C20_container_hash (io : FloatIO) (m : FMap) (ind : Ind) (es : List Entr
     same map, any other element under the container formats — recursively -/
 theorem C20_container_rec (io : FloatIO) (m : FMap) (v : Val) (h : PlainContainers m) :
     format io m v = refVal io m v := fmtVal_ref io v m Ind.default rfl h
+
+/-- **alt-mode (`#`) and non-alt containers, recursively**: for values of ANY depth under any per-type format map (any
+    mixture of alt and non-alt container formats, widths that trigger the size break; Hash format other than `a`), the
+    rendering computed by the model of `ToString2` — Indentation objects with Indenting/Increase/Subsequent/IsFirst/
+    Breaks, the first-element state of the element loop — IS the directly written pretty-printer `refPP`: nesting
+    level, "the enclosing format indents" and "not the first on its level" as plain parameters, line breaks decided
+    by looking at the previous element (`ppGlue`), hashes one entry per line -/
+theorem C20_container_alt (io : FloatIO) (m : FMap) (v : Val) (h : (getFormat m .hash).f.letter ≠ 'a') :
+    format io m v = refPP io m 0 false false v := fmtVal_pp io v m 0 false false h
+
+/-- **the line-break law** of alt mode: an indenting container nested at a level > 0, not first on its level, is a line
+    break, 2·level blanks, and then exactly its text as the first thing on the level -/
+theorem C20_alt_line_break (io : FloatIO) (m : FMap) (L : Nat) (inh : Bool) (vs : List Val) (hL : 0 < L)
+    (hind : ((getFormat m .arr).f.alt || inh) = true) :
+    refPP io m L inh true (.array vs) = (refPP io m L inh false (.array vs)).bind (fun s => .text (newLine L ++ s)) :=
+  refPP_lead io m L inh (.array vs) hL hind
+
+/-- non-vacuity: alt arrays and hashes nested four deep -/
+example : format io0 [(.arr, .mk { simpleFmt 'a' with alt := true, width := some 3 } none),
+      (.hash, .mk { simpleFmt 'h' with alt := true } none)]
+    (.array [.int 1, .int 22, .array [.int 3, .hash [.mk (.str ['k']) (.array [.int 4])]], .int 5]) =
+    .text "[1, 22,\n  [3,\n    {\n      'k' => [4]\n    }],\n  5]".toList := by decide +kernel
 
 /-- non-vacuity of `C20_container_rec`: the default formats, three levels deep -/
 example : PlainContainers [] ∧
